@@ -20,7 +20,6 @@ import glob
 import hashlib
 import json
 import os
-import threading
 import time
 
 import pipeline as pl
@@ -147,6 +146,8 @@ def masks_phase(run, maxlen):
 
 def generated_modules(run, tier):
     """ASN.1 modules rendered from TypeGen descriptors (token boundaries by construction of render.py)."""
+    if tier == 'smoke':
+        return []
     if tier == 'quick':
         cfgs = [(1, False, ['A'])]
         per = 8
@@ -186,7 +187,7 @@ def fixture_texts(tier):
     out = []
     for path in sorted(glob.glob(os.path.join(REPO_FILES, '**', '*.asn'), recursive=True)):
         size = os.path.getsize(path)
-        if tier == 'quick' and size > 36000:
+        if (tier == 'quick' and size > 20000) or (tier == 'smoke' and size > 700):
             continue
         with open(path, encoding='utf-8', errors='replace') as f:
             text = f.read() + '\n'              # as asn1tools.parse_files reads it
@@ -221,7 +222,7 @@ def read_ndjson(paths):
 
 
 def layout_phase(run, tier, seed):
-    quick = tier == 'quick'
+    quick = tier in ('quick', 'smoke')
     t_last = [time.time()]
 
     cpu_last = [sum(os.times()[:4])]
@@ -290,7 +291,7 @@ def layout_phase(run, tier, seed):
                                    'sched_%s.ndjson' % tag, workers=workers(), env={'TOKENS_FILE': path}, what='Layout BFS: ' + what)
         scheds += pl.dedup_cases(out, tag)
     clock('layout bfs')
-    num, depth = (150, 100) if quick else (6000, 200)
+    num, depth = (20, 100) if tier == 'smoke' else (150, 100) if quick else (6000, 200)
     out, res = pl.tlc_generate(run, 'Layout', layout_cfg(100000, 1, 'Skips = {1, 2, 3, 5, 8, 13, 21, 34}', False, allf, True, []),
                                'sched_sim.ndjson', workers=workers(), simulate='num=%d' % num, depth=depth,
                                env={'TOKENS_FILE': wpath}, timeout=3600,
@@ -344,10 +345,74 @@ def layout_phase(run, tier, seed):
                         run.samples.append({'kind': 'layout', 'window': r['wid'], 'changes [boundary, filler]': c['ch'],
                                             'tokens_at_first_change': r['toks'][b - 1:b + 1],
                                             'original': r['o0']['st'], 're-laid-out': c['o1']['st'], 'same_dictionary': c['same']})
-    return treports, tshards, lreports, lshards
+    ctx = {'texts': {t['tid']: t['text'] for t in texts}, 'wins': {w['wid']: w for w in wins}, 'origdir': origdir}
+    return treports, tshards, lreports, lshards, ctx
 
 
-def c14(tier, seed):
+def enrich(run, ctx):
+    """Make the replay files of layout violations self-contained: the two complete texts."""
+    import pickle
+    for v in run.violations:
+        c = v.get('case')
+        if not c or c.get('k') != 'layout' or c['wid'] not in ctx['wins']:
+            continue
+        w = ctx['wins'][c['wid']]
+        text = ctx['texts'][w['tid']]
+        with open(os.path.join(ctx['origdir'], '%s.pickle' % w['tid']), 'rb') as f:
+            items = pickle.load(f)['items']
+        lo, hi = items[w['off']][1], items[w['off'] + len(w['toks']) - 1][2]
+        one = c['cases'][v['obs']['vi'] - 1]
+        v['case'] = {'cid': c['cid'], 'k': 'layout', 'wid': c['wid'], 'toks': c['toks'], 'worig': c['worig'], 'o0': c['o0'],
+                     'cases': [one], 'text_orig': text, 'text_new': text[:lo] + ''.join(one['wnew']) + text[hi:]}
+        v['obs'] = dict(v['obs'], vi=1)
+
+
+def replay(rp, seed):
+    """./check C14 --replay <file>: run the recorded case again on the real parser and judge it again."""
+    import sys
+    import drive_comments as dc
+    sys.path.insert(0, pl.REPO)
+    import asn1tools
+    from asn1tools import parser
+    use_dev_findings()
+    run = pl.Run('C14', 'replay', seed)
+    run.signatures = CountingSet()
+    try:
+        c = dict(rp['case'])
+        if c['k'] == 'mask':
+            for it in c['items']:
+                o = dc.guarded(lambda: parser.ignore_comments(c['p'] + it['x']), 20)
+                if o['st'] == 'ok':
+                    o['t'] = o.pop('r')
+                it['o'] = o
+        elif c['k'] == 'text':
+            text = ''.join(c['lines'])
+            o = dc.guarded(lambda: parser.ignore_comments(text), 120)
+            if o['st'] == 'ok':
+                o['lines'] = dc.cut_like(c['lines'], o.pop('r'))
+            c['o'] = o
+        elif c['k'] == 'layout':
+            if 'text_orig' not in c:
+                raise pl.Machinery('replay file without the complete texts')
+            o0, d0 = dc.parse_outcome(asn1tools, c.pop('text_orig'))
+            o1, d1 = dc.parse_outcome(asn1tools, c.pop('text_new'))
+            c['o0'] = o0
+            c['cases'][0].update({'o1': o1, 'same': bool(o0['st'] == 'ok' and o1['st'] == 'ok' and d0 == d1)})
+        elif c['k'] == 'errline':
+            c['l0'], _ = dc.parse_outcome(asn1tools, ''.join(c['t0']))
+            c['l1'], _ = dc.parse_outcome(asn1tools, ''.join(c['t1']))
+        path = run.path('replay.0.ndjson')
+        pl.write_cases([c], path)
+        reports = pl.validate(run, 'Trace_Comments', TRACE_CFG, [path], what='Trace_Comments replay')
+        pl.classify(run, reports, LazyIndex([path]), 'C14')
+        print('replayed %s: %s' % (c['cid'], json.dumps(reports[0]['other'])[:600] or 'accepted'))
+        return pl.finish(run, rule='replay of one recorded case')
+    except pl.Machinery as e:
+        print('MACHINERY FAILURE C14: %s' % e)
+        return 2
+
+
+def use_dev_findings():
     if os.environ.get('VERIF_FINDINGS'):       # development only: another findings file
         path = os.environ['VERIF_FINDINGS']
 
@@ -356,33 +421,28 @@ def c14(tier, seed):
                 data = json.load(f)
             return [e for e in data['findings'] if prop is None or e['property'] == prop]
         pl.load_findings = load_findings
+
+
+def c14(tier, seed):
+    use_dev_findings()
     run = pl.Run('C14', tier, seed)
     run.signatures = CountingSet()
     try:
-        maxlen = 6 if tier == 'quick' else 8
-        box = {}
-
-        def masks():
-            try:
-                box['masks'] = masks_phase(run, maxlen)
-            except BaseException as e:  # noqa
-                box['err'] = e
+        maxlen = {'smoke': 4, 'quick': 6}.get(tier, 8)
         only = os.environ.get('VERIF_C14_ONLY', '')      # development: 'masks' or 'layout'
         if only != 'layout':
-            masks()
-            if 'err' in box:
-                raise box['err']
-            mreports, mshards = box['masks']
+            mreports, mshards = masks_phase(run, maxlen)
             pl.classify(run, mreports, LazyIndex(mshards), 'C14')
         if only != 'masks':
-            treports, tshards, lreports, lshards = layout_phase(run, tier, seed)
+            treports, tshards, lreports, lshards, ctx = layout_phase(run, tier, seed)
             pl.classify(run, treports, LazyIndex(tshards), 'C14')
             pl.classify(run, lreports, LazyIndex(lshards), 'C14')
+            enrich(run, ctx)
         run.assumptions = [
             'TLC and SANY are correct; spec/Comments.tla transcribes X.680 12.6 (comments) and 12.1-12.37 (lexical items) faithfully',
             'white-space is space, tab, new-line, carriage return; other new-line characters of X.680 12.1.6 (VT, FF) and no-break space are outside the explored alphabet',
             'a signed number (-5) and a field reference (&id) are single items; the end of the text ends a line',
-            'error injection and line judgement only on texts of at most 400 tokens that parse',
+            'error injection and line judgement only in the first window of texts of at most 40 000 characters that parse',
         ]
         return pl.finish(run, exhaustive=True, rule=(
             'masks: every string over {- / * " new-line a space} up to length %d is one case (exhaustive); it counts as '
